@@ -135,6 +135,11 @@ def check_case(spec, M, pc_id, sources=SOURCES, vias=('encode', 'send', 'resend'
                 if norm(fields.get(el)) != norm(want):
                     raise Violation('C06:command-field-value', 'element (0000,%04X) carries %r, message has %r'
                                     % (el, fields.get(el), want), case)
+            # the PDU objects handed out belong to whoever got them (the provider): whatever happens to them must
+            # not show in what is produced for the same message later on
+            from .. import pdugen
+            for p in pdus:
+                pdugen.scramble(p)
             if first is None:
                 first = frags
             elif frags != first:
